@@ -25,6 +25,11 @@
     tinv via=…      inverse_tensor / Tensor / TensorView ::inverse          → some(a:R,b:C;e,…) | none
     mcheck via=…    A·A⁻¹ and A⁻¹·A for the Matrix inverse                  → none | some(id,id) | some(<p>|<q>)
     tcheck via=…    the same for the tensor inverse
+    tcons use=<consumer> via=…   the tensor inverse passed through another consumer of the library:
+                    into_matrix | matrix_from → some(RxC;e,…); elementwise (· with the input) | map_with_index
+                    (· (row-major position + 1)) | add_plain | sub_plain (with the input as a plain tensor) |
+                    reshape_owned | iter_owned | iter_ref → some(e,…); display | eq_rebuilt (against a tensor built
+                    afresh from the Matrix entry point's result) → some(same); none when there is no inverse
 
   `via=` (which Rust entry point / ownership form / view adaptor presents the matrix) is ignored:
   every variant must give the model's single answer.  Values are exact field elements
@@ -128,6 +133,25 @@ def answerApprox (names : String × String) (rows cols : Nat) (l : List Rat) (op
       (inverseTensor names (viewOf rows cols l))
   | _ => "bad-op"
 
+/-- `tcons`: what each consumer must show, from the model's buffer (row-major, shape order) -/
+def answerCons {α : Type} [Add α] [Sub α] [Mul α] [Div α] [Zero α] [One α] [NumOrd α] [NatCast α]
+    (sh : α → String) (names : String × String) (rows cols : Nat) (l : List α) (use : String) : String :=
+  match inverseTensor names (viewOf rows cols l) with
+  | .panic k => s!"panic({k})"
+  | .ok none => "none"
+  | .ok (some t) =>
+    let inv := t.data
+    match use with
+    | "into_matrix" | "matrix_from" => s!"some({rows}x{cols};{showVals sh inv})"
+    | "elementwise" => s!"some({showVals sh (List.zipWith (· * ·) inv l)})"
+    | "map_with_index" =>
+      s!"some({showVals sh (inv.zipIdx.map fun (x : α × Nat) => x.1 * ((x.2 + 1 : Nat) : α))})"
+    | "add_plain" => s!"some({showVals sh (List.zipWith (· + ·) inv l)})"
+    | "sub_plain" => s!"some({showVals sh (List.zipWith (· - ·) inv l)})"
+    | "reshape_owned" | "iter_owned" | "iter_ref" => s!"some({showVals sh inv})"
+    | "display" | "eq_rebuilt" => "some(same)"
+    | _ => "bad-op"
+
 def step (s : State) (toks : List String) : State × String :=
   match toks with
   | "@" :: ty :: shapeS :: entriesS :: _opts =>
@@ -156,9 +180,14 @@ def step (s : State) (toks : List String) : State × String :=
       (s, if op = "mdbits" || op = "tdbits" || op = "mibits" || op = "tibits" then "agree" else "bad-op")
     else
     match s.elems with
-    | .fp l => (s, answer (fun (x : Fp) => toString x) s.names s.rows s.cols l op)
+    | .fp l =>
+      if op = "tcons" then
+        (s, answerCons (fun (x : Fp) => toString x) s.names s.rows s.cols l ((optArg "use" toks).getD ""))
+      else (s, answer (fun (x : Fp) => toString x) s.names s.rows s.cols l op)
     | .rat l =>
       if s.approx then (s, answerApprox s.names s.rows s.cols l op)
+      else if op = "tcons" then
+        (s, answerCons showRat s.names s.rows s.cols l ((optArg "use" toks).getD ""))
       else (s, answer showRat s.names s.rows s.cols l op)
   | _ => (s, "bad-op")
 
